@@ -2,111 +2,7 @@
 // loadNeededValues runs on the real Addons code under the cooperative scheduler of sched.hpp; the oracle is evaluated on
 // every execution: termination, exactly-once, exclusive thread ids, budget, values at their coordinates, nodal surrogate.
 // With -DVS_NO_INTERPOSE (variant tsan) the same bodies run free under ThreadSanitizer (auxiliary race pass).
-#include "sched.hpp"
-#include "TasmanianSparseGrid.hpp"
-#include "TasmanianAddons.hpp"
-#include <atomic>
-using namespace TasGrid;
-
-struct Scenario { const char *name; int kind; int fam; int workers; int budget; int batch; double tol; };
-// kind 0 = constructSurrogate<mode_parallel>, 1 = loadNeededValues<mode_parallel>
-// fam: 0 local polynomial 1-D, 1 local polynomial 2-D, 2 sequence 2-D anisotropic, 3 global 1-D (weights variant), 4 wavelet 1-D
-static const Scenario SC[] = {
-    {"construct:localp1d:w2:b7:s1",      0, 0, 2, 7, 1, 1e-2},
-    {"construct:localp1d:w2:b3:s2",      0, 0, 2, 3, 2, 1e-2},
-    {"construct:localp1d:w3:b2:s1",      0, 0, 3, 2, 1, 1e-2},   // budget smaller than the number of workers
-    {"construct:localp1d:w2:b40:tol",    0, 0, 2, 40, 1, 0.9},   // tolerance reached long before the budget
-    {"construct:localp2d:w2:b9:s2",      0, 1, 2, 9, 2, 1e-2},
-    {"construct:sequence2d:w2:b6:s1",    0, 2, 2, 6, 1, 0},
-    {"construct:global1d:w2:b5:s1",      0, 3, 2, 5, 1, 0},
-    {"construct:wavelet1d:w2:b6:s1",     0, 4, 2, 6, 1, 1e-2},
-    {"construct:localp1d:w1:b4:s1",      0, 0, 1, 4, 1, 1e-2},
-    {"load:localp1d:t2",                 1, 0, 2, 0, 0, 0},
-    {"load:localp1d:t3",                 1, 0, 3, 0, 0, 0},
-    {"load:sequence2d:t2",               1, 2, 2, 0, 0, 0},
-    {"construct:localp1d:w3:b8:s2",      0, 0, 3, 8, 2, 1e-2},
-};
-static const int NSC = sizeof(SC) / sizeof(SC[0]);
-
-static double fmodel(const double *x, int d, int k){ double s = 0.2 * k; for(int j=0;j<d;j++) s += std::exp(1.3 * x[j]) * (j + 1) + (x[j] > 0.3 ? 1.0 : 0.0); return s; }
-
-static std::string body(int si){
-    const Scenario &sc = SC[si]; std::ostringstream log;
-    int d = (sc.fam == 1 || sc.fam == 2) ? 2 : 1; int outs = 2;
-    TasmanianSparseGrid grid;
-    switch(sc.fam){
-        case 0: grid = makeLocalPolynomialGrid(1, outs, 1, 1, rule_localp); break;
-        case 1: grid = makeLocalPolynomialGrid(2, outs, 1, 2, rule_localp); break;
-        case 2: grid = makeSequenceGrid(2, outs, 1, type_level, rule_rleja); break;
-        case 3: grid = makeGlobalGrid(1, outs, 1, type_level, rule_clenshawcurtis); break;
-        default: grid = makeWaveletGrid(1, outs, 0, 1); break;
-    }
-    std::map<std::vector<double>, int> calls; std::map<size_t, int> inflight; int maxconc_same_id = 0; size_t launched = 0; std::string assign; bool bad_tid = false;
-    size_t nworkers = (size_t) sc.workers;
-    std::atomic_flag book = ATOMIC_FLAG_INIT; // protects the harness' own bookkeeping (no pthread call: invisible to the scheduler, visible to TSan)
-    auto enter = [&](size_t tid, const double *x, size_t npts){
-        while(book.test_and_set(std::memory_order_acquire)){}
-        if (tid >= nworkers) bad_tid = true;
-        inflight[tid]++; maxconc_same_id = std::max(maxconc_same_id, inflight[tid]);
-        for(size_t i=0;i<npts;i++){ calls[std::vector<double>(x + i*d, x + (i+1)*d)]++; launched++; }
-        assign += std::to_string(tid) + "x" + std::to_string(npts) + ";";
-        book.clear(std::memory_order_release);
-        vs::yield("model-begin");
-    };
-    auto leave = [&](size_t tid){ vs::yield("model-end"); while(book.test_and_set(std::memory_order_acquire)){} inflight[tid]--; book.clear(std::memory_order_release); };
-    if (sc.kind == 0){
-        auto model = [&](std::vector<double> const &x, std::vector<double> &y, size_t tid)->void{
-            size_t n = x.size() / d; enter(tid, x.data(), n); y.resize(n * outs);
-            for(size_t i=0;i<n;i++) for(int k=0;k<outs;k++) y[i*outs+k] = fmodel(&x[i*d], d, k);
-            leave(tid);
-        };
-        if (sc.fam == 2) constructSurrogate<mode_parallel>(model, sc.budget, sc.workers, sc.batch, grid, type_iptotal, 0);
-        else if (sc.fam == 3) constructSurrogate<mode_parallel>(model, sc.budget, sc.workers, sc.batch, grid, type_level, std::vector<int>{1});
-        else constructSurrogate<mode_parallel>(model, sc.budget, sc.workers, sc.batch, grid, sc.tol, refine_classic);
-    }else{
-        auto model = [&](double const x[], double y[], size_t tid)->void{ enter(tid, x, 1); for(int k=0;k<outs;k++) y[k] = fmodel(x, d, k); leave(tid); };
-        if (sc.fam == 2){ grid = makeSequenceGrid(2, outs, 2, type_level, rule_rleja); }
-        else grid = makeLocalPolynomialGrid(1, outs, 2, 1, rule_localp);
-        loadNeededValues<mode_parallel, false>(model, grid, (size_t) sc.workers);
-    }
-    int dup = 0; for(auto &c : calls) if (c.second > 1) dup++;
-    bool misplaced = false; double worst = 0;
-    if (grid.getNumLoaded() > 0){
-        auto pts = grid.getLoadedPoints(); const double *v = grid.getLoadedValues(); std::vector<double> y; grid.evaluateBatch(pts, y);
-        for(int i=0;i<grid.getNumLoaded();i++) for(int k=0;k<outs;k++){ double ex = fmodel(&pts[(size_t) i*d], d, k); if (v[(size_t) i*outs+k] != ex) misplaced = true; worst = std::max(worst, std::abs(y[(size_t) i*outs+k] - ex)); }
-        for(int i=0;i<grid.getNumLoaded();i++) if (!calls.count(std::vector<double>(pts.begin() + (size_t) i*d, pts.begin() + (size_t)(i+1)*d))) misplaced = true;
-    }
-    log << "loaded=" << grid.getNumLoaded() << " launched=" << launched << " dup=" << dup << " sameid=" << maxconc_same_id << " badtid=" << bad_tid << " misplaced=" << misplaced
-        << " nodal=" << (worst > (grid.isWavelet() ? 1e-7 : 1e-9) * 10 ? "BAD" : "ok") << " constr=" << grid.isUsingConstruction() << " assign=" << assign;
-    return log.str();
-}
-
-static long field(const std::string &obs, const char *k){ size_t p = obs.find(std::string(k) + "="); if (p == std::string::npos) return -1; return atol(obs.c_str() + p + strlen(k) + 1); }
-
-static int g_nviol = 0;
-static void check_exec(int si, const vx::Result &x, const std::vector<int> &prefix, std::map<std::string,long> &outcomes){
-    const Scenario &sc = SC[si]; std::string unit = sc.name;
-    std::string cs = vf::J().i("scenario", si).s("name", sc.name).raw("choices", vf::jarr(vx::nonzero_prefix(x.pts))).str();
-    auto viol = [&](const std::string &sig, const std::string &detail){ g_nviol++; if (g_nviol <= 30) vf::violation(sig, unit, cs, detail); };
-    std::string kindn = sc.kind == 0 ? "constructSurrogate" : "loadNeededValues";
-    if (x.status != "OK"){
-        std::string st = x.status; std::string cls = st.substr(0, st.find(' '));
-        outcomes["status:" + st]++;
-        viol("C18:" + kindn + ":" + (cls == "SANITIZER" ? "sanitizer:" + st.substr(10) : cls == "DEADLOCK" ? "deadlock" : cls == "LIVELOCK" ? "livelock" : cls == "TIMEOUT" ? "timeout" : cls == "REPLAY-DIVERGED" ? "replay-diverged" : "died:" + st), st + " with schedule [" + vx::choices_str(x.pts) + "] " + x.out.err.substr(0, 800));
-        return;
-    }
-    const std::string &o = x.obs; size_t ap = o.find(" assign=");
-    outcomes[o.substr(0, ap) + " #assign=" + vf::digest(o.substr(ap == std::string::npos ? 0 : ap)).substr(0, 6)]++;
-    if (field(o, "dup") > 0) viol("C18:" + kindn + ":point-computed-twice", o);
-    if (field(o, "sameid") > 1) viol("C18:" + kindn + ":thread-id-used-concurrently", o);
-    if (field(o, "badtid") > 0) viol("C18:" + kindn + ":thread-id-out-of-range", o);
-    if (field(o, "misplaced") > 0) viol("C18:" + kindn + ":value-not-at-its-point", o);
-    if (o.find("nodal=BAD") != std::string::npos) viol("C18:" + kindn + ":surrogate-not-nodal", o);
-    if (sc.kind == 0 && field(o, "launched") > sc.budget) viol("C18:constructSurrogate:budget-exceeded" + std::string(sc.budget < sc.workers ? ":budget-below-workers" : ""), "budget " + std::to_string(sc.budget) + ": " + o);
-    if (sc.kind == 0 && field(o, "loaded") > sc.budget) viol("C18:constructSurrogate:loaded-exceeds-budget", o);
-    if (sc.kind == 1 && field(o, "loaded") != field(o, "launched")) viol("C18:loadNeededValues:not-every-needed-point-computed-once", o);
-    (void) prefix;
-}
+#include "surrogate_body.inc"
 
 int main(int argc, char **argv){
     vf::Args A(argc, argv); std::string tier = A.get("--tier", "quick"); int bound = (int) A.geti("--bound", tier == "quick" ? 2 : 3);
@@ -125,38 +21,52 @@ int main(int argc, char **argv){
         return 0;
     }
 #endif
-    if (A.has("--trace")){ // print the operation trace of one schedule: --trace <scenario> [--choices 0,1,...]
+    auto set_lat = [&](const std::string &s){ auto v = vf::jints(s); if (v.size() == 5){ g_lat.p = (int) v[0]; g_lat.tp = (int) v[1]; g_lat.q = (int) v[2]; g_lat.tq = (int) v[3]; g_lat.u = (int) v[4]; } };
+    if (A.has("--lat")) set_lat(A.get("--lat", ""));
+    if (A.has("--trace")){ // print the operation trace of one schedule: --trace <scenario> [--choices 0,1,...] [--lat p,tp,q,tq,u]
         int si = (int) A.geti("--trace", 0); auto ch = vf::jints(A.get("--choices", "")); std::vector<int> pre(ch.begin(), ch.end());
         vx::Result x = vx::run(pre, [&]{ return body(si); }, 120.0, true);
         printf("%s | %s\n", x.status.c_str(), x.obs.c_str()); for(auto &t : x.trace) printf("%s ", t.c_str()); printf("\n"); return 0;
     }
     if (A.has("--replay")){
-        std::string v = vf::slurp(A.get("--replay")); std::string cs = vf::jget(v, "case"); int si = atoi(vf::jget(cs, "scenario").c_str()); auto ch = vf::jints(vf::jget(cs, "choices")); std::vector<int> pre(ch.begin(), ch.end());
+        std::string v = vf::slurp(A.get("--replay")); std::string cs = vf::jget(v, "case"); int si = atoi(vf::jget(cs, "scenario").c_str()); auto ch = vf::jints(vf::jget(cs, "choices")); std::vector<int> pre(ch.begin(), ch.end()); set_lat(vf::jget(cs, "lat"));
         // replay twice: identical observations are required before a failure is trusted
         vx::Result a = vx::run(pre, [&]{ return body(si); }, 120.0), b = vx::run(pre, [&]{ return body(si); }, 120.0); std::map<std::string,long> oc;
         if (a.status != b.status || a.obs != b.obs || vx::choices_str(a.pts) != vx::choices_str(b.pts)) vf::emit(vf::J().s("t","error").s("what","replay of the same schedule gives different observations"));
         check_exec(si, a, pre, oc); vf::emit(vf::J().s("t","summary").s("replay", a.status + " " + a.obs)); return 0;
     }
     // work units: (scenario, first-level alternative); unit 0 of each scenario also runs the default schedule
-    struct WU { int si; std::vector<int> prefix; bool root; }; std::vector<WU> W;
+    struct WU { int si; std::vector<int> prefix; bool root; bool whole; Lat lat; }; std::vector<WU> W;
     int nsc = (tier == "quick") ? NSC : NSC;
     for(int si=0; si<nsc; si++){
         vx::Result x = vx::run(std::vector<int>(), [&]{ return body(si); }, 120.0);
-        WU r; r.si = si; r.root = true; W.push_back(r);
-        if (bound >= 1) for(size_t i=0;i<x.pts.size();i++) for(int alt=1; alt<x.pts[i].nenabled; alt++){ WU u; u.si = si; u.root = false; for(size_t k=0;k<i;k++) u.prefix.push_back(x.pts[k].chosen); u.prefix.push_back(alt); W.push_back(u); }
+        WU r; r.si = si; r.root = true; r.whole = false; W.push_back(r);
+        if (bound >= 1) for(size_t i=0;i<x.pts.size();i++) for(int alt=1; alt<x.pts[i].nenabled; alt++){ WU u; u.si = si; u.root = false; u.whole = false; for(size_t k=0;k<i;k++) u.prefix.push_back(x.pts[k].chosen); u.prefix.push_back(alt); W.push_back(u); }
+    }
+    // latency enumeration: every assignment of the families F0 (only the non-initial points are slow), F1 (one slow initial point), F2 (two slow initial points, 1 and 2 ticks)
+    // is a work unit, explored from the root with lbound deviations (quick 0 = the default schedule of every assignment, thorough 1)
+    int lbound = (int) A.geti("--lbound", tier == "quick" ? 0 : 1); long nlat = 0;
+    for(int si=SC_LAT0; si<SC_LAT0+NSC_LAT; si++){
+        if (tier == "quick" && si >= SC_LAT0 + 2) continue;
+        const int NI = 13; std::vector<Lat> L;
+        for(int u : {0, 1, 2, 4}){ Lat l; l.u = u; L.push_back(l); }
+        for(int p=0;p<NI;p++) for(int tp : {1, 2, 3}) for(int u : {0, 1, 2, 4}){ Lat l; l.p = p; l.tp = tp; l.u = u; L.push_back(l); }
+        for(int p=0;p<NI;p++) for(int q=0;q<NI;q++) if (p != q) for(int u : {0, 2, 4}){ Lat l; l.p = p; l.tp = 1; l.q = q; l.tq = 2; l.u = u; L.push_back(l); }
+        for(auto &l : L){ WU u; u.si = si; u.root = false; u.whole = true; u.lat = l; W.push_back(u); nlat++; }
     }
     // quick tier: the full bound on the scenarios with the richest protocol behaviour, bound-1 on the others (reported in the summary)
     auto sbound = [&](int si)->int{ if (tier != "quick") return bound; static const int full[] = {0, 1, 2, 3, 9, 12}; for(int f : full) if (f == si) return bound; return std::min(bound, 1); };
     size_t done = vf::parallel_units(W.size(), (int) A.geti("--workers", 8), [&](size_t ui){
-        const WU &u = W[ui]; vx::Stats S; std::map<std::string,long> oc; int si = u.si; g_nviol = 0;
+        const WU &u = W[ui]; vx::Stats S; std::map<std::string,long> oc; int si = u.si; g_nviol = 0; g_lat = u.lat;
         auto on_exec = [&](const vx::Result &x, const std::vector<int> &p){ check_exec(si, x, p, oc); };
-        if (u.root){ vx::Result x = vx::run(std::vector<int>(), [&]{ return body(si); }, 120.0); S.execs++; S.points += (long) x.pts.size(); on_exec(x, std::vector<int>()); }
+        if (u.whole) vx::explore(std::vector<int>(), 0, lbound, [&]{ return body(si); }, on_exec, S, 120.0);
+        else if (u.root){ vx::Result x = vx::run(std::vector<int>(), [&]{ return body(si); }, 120.0); S.execs++; S.points += (long) x.pts.size(); on_exec(x, std::vector<int>()); }
         else vx::explore(u.prefix, 1, sbound(si), [&]{ return body(si); }, on_exec, S, 120.0);
         for(auto &p : oc) vf::emit(vf::J().s("t","outcome").s("key", std::string(SC[si].name) + " | " + p.first).i("n", p.second));
         if (ui % 41 == 0 && !oc.empty()) vf::emit(vf::J().s("t","sample").raw("case", vf::J().s("scenario", SC[si].name).raw("first_level_deviation", vf::jarr(u.prefix)).i("schedules_below", S.execs).s("an_outcome", oc.begin()->first).str()));
-        vf::emit(vf::J().s("t","unit").s("unit", std::string(SC[si].name) + (u.root ? ":default" : ":" + vf::jarr(u.prefix))).i("states", S.points).i("transitions", S.points).i("execs", S.execs).i("evals", S.execs).i("distinct", (long long) oc.size()).i("violations", g_nviol).b("complete", !vf::past_deadline()));
+        vf::emit(vf::J().s("t","unit").s("unit", std::string(SC[si].name) + (u.whole ? ":lat" + lat_str(u.lat) : u.root ? ":default" : ":" + vf::jarr(u.prefix))).i("states", S.points).i("transitions", S.points).i("execs", S.execs).i("evals", S.execs).i("distinct", (long long) oc.size()).i("violations", g_nviol).b("complete", !vf::past_deadline()));
     });
     vf::emit(vf::J().s("t","sample").raw("case", vf::J().s("scenario", SC[0].name).s("schedule", "default, then every choice vector with <= " + std::to_string(bound) + " non-default choices").str()));
-    vf::emit(vf::J().s("t","summary").i("units_total", (long long) W.size()).i("units_done", (long long) done).s("bound", "all schedules with <= " + std::to_string(bound) + " deviations from the default schedule (quick tier: scenarios 0,1,2,3,9,12 at that bound, the others at bound 1), " + std::to_string(nsc) + " scenarios" + (vs::choose_waiter ? ", notify_one may wake any waiter" : ", FIFO wake-up")).b("exhaustive", done == W.size() && !vf::past_deadline()));
+    vf::emit(vf::J().s("t","summary").i("units_total", (long long) W.size()).i("units_done", (long long) done).s("bound", "all schedules with <= " + std::to_string(bound) + " deviations from the default schedule (quick tier: scenarios 0,1,2,3,9,12 at that bound, the others at bound 1), " + std::to_string(nsc) + " scenarios; " + std::to_string(nlat) + " (latency scenario, latency assignment) units in virtual time with <= " + std::to_string(lbound) + " deviations" + (vs::choose_waiter ? ", notify_one may wake any waiter" : ", FIFO wake-up")).b("exhaustive", done == W.size() && !vf::past_deadline()));
     return 0;
 }
